@@ -220,6 +220,20 @@ def check(prop, tier, seed):
         except Exception as e:
             checker_failures.append("np_conformance did not run: %r" % (e,))
 
+    # ---- conformance of the DFT contract and the textbook lemmas D1-D5 on the real FFT layer
+    if entry.get("dft_conformance"):
+        try:
+            pc = subprocess.run([NATIVE_PY, os.path.join(VERIF, "bounded", "dft_conformance.py"), "--max", "4" if tier == "quick" else "7"],
+                                capture_output=True, text=True, timeout=1800, cwd=VERIF, env=dict(os.environ, PYTHONDONTWRITEBYTECODE="1"))
+            cj = json.loads([l for l in pc.stdout.strip().splitlines() if l.startswith("{")][-1])
+            bounded_ev.append({"what": cj["what"], "bound": cj["bound"], "evaluations": cj["evaluations"],
+                               "distinct_nontrivial": cj["distinct_nontrivial"], "rule": cj["rule"], "samples": [cj["per_kind"]],
+                               "per_kind": cj["per_kind"], "wall_s": 0.0, "failures": cj["n_failures"]})
+            if cj["n_failures"]:
+                checker_failures.append("DFT contract / lemma does not hold on the installed FFT layer: %s" % json.dumps(cj["failures"][:2])[:400])
+        except Exception as e:
+            checker_failures.append("dft_conformance did not run: %r" % (e,))
+
     # ---- refuted obligations: replay
     for o, r in refuted:
         kf = match_finding(findings, prop, name=o.name)
